@@ -322,14 +322,26 @@ inductive Out
     too long, so `classify = fun _ => .generic`; the theorems hold for every admissible `classify`.) -/
 abbrev Classify := Frame → FrameClass
 
+/-- the reply of a ONE-item batch, as the connection handler writes it (each item separately) -/
+def unwrap1 : Reply → Reply
+  | .many [r] => .one r
+  | r => r
+
+/-- a command of the sharding model at time `now`: the shards that get a message adopt the time -/
+def execSc (R : Routes) (now : Nat) (st : Shards Redis.Entry) (sc : Cmd sig7) : Shards Redis.Entry × Reply :=
+  execN exec7 R true (sweep (recv R sc) now st) sc
+
 /-- the N-shard node answers one command via the entry point the frame class selects -/
 def execVia (R : Routes) (cls : FrameClass) (now : Nat) (st : Shards Redis.Entry) (c : Redis.Cmd) :
     Shards Redis.Entry × Reply :=
   match dispatch cls, c with
-  | .pooledFastGet, .get k =>
-    execN exec7 R true (sweep (recv R (.fastGet k)) now st) (.fastGet k)
-  | .pooledFastSet, .set k v .always .none false =>
-    execN exec7 R true (sweep (recv R (.fastSet k v)) now st) (.fastSet k v)
+  | .pooledFastGet, .get k => execSc R now st (.fastGet k)
+  | .pooledFastSet, .set k v .always .none false => execSc R now st (.fastSet k v)
+  -- an item of a batched call (`fast_batch_get_pipeline` / `fast_batch_set_pipeline`)
+  | .fastBatchGetPipeline, .get k =>
+    let r := execSc R now st (.batchGet [k]); (r.1, unwrap1 r.2)
+  | .fastBatchSetPipeline, .set k v .always .none false =>
+    let r := execSc R now st (.batchSet [(k, v)]); (r.1, unwrap1 r.2)
   | _, c => execNT7code R now st c
 
 /-- one frame at virtual time `now` -/
